@@ -46,7 +46,39 @@ def gen_facts():
     history_readers = []
     file_attr_readers = {}      # attribute of context.file read in rules
     args_reads = set()
+    one_shot = []               # module- or class-level names bound to a one-shot iterator
+    registry_state = []         # attributes of the long-lived Registry written outside __init__
+    ITER_CALLS = {"map", "filter", "zip", "iter", "reversed", "enumerate"}
+
+    def is_one_shot(v):
+        if isinstance(v, ast.GeneratorExp):
+            return True
+        return isinstance(v, ast.Call) and isinstance(v.func, ast.Name) and v.func.id in ITER_CALLS
     for rel, tree in mods:
+        scopes = [(rel, tree.body)] + [(f"{rel}:{c.name}", c.body) for c in ast.walk(tree) if isinstance(c, ast.ClassDef)]
+        for where, body in scopes:
+            for st in body:
+                if isinstance(st, ast.Assign) and is_one_shot(st.value):
+                    one_shot += [f"{where}:{t.id}" for t in st.targets if isinstance(t, ast.Name)]
+                if isinstance(st, ast.AnnAssign) and st.value is not None and is_one_shot(st.value) and isinstance(st.target, ast.Name):
+                    one_shot.append(f"{where}:{st.target.id}")
+        if rel.endswith("registry.py"):
+            for c in ast.walk(tree):
+                if isinstance(c, ast.ClassDef) and c.name == "Registry":
+                    for fn in c.body:
+                        if isinstance(fn, ast.FunctionDef) and fn.name != "__init__":
+                            for node in ast.walk(fn):
+                                tgts = []
+                                if isinstance(node, ast.Assign):
+                                    tgts = node.targets
+                                elif isinstance(node, (ast.AugAssign, ast.AnnAssign)):
+                                    tgts = [node.target]
+                                elif isinstance(node, ast.Call) and isinstance(node.func, ast.Attribute) and node.func.attr in MUTATORS:
+                                    tgts = [node.func.value]
+                                for t in tgts:
+                                    base = t.value if isinstance(t, ast.Subscript) else t
+                                    if isinstance(base, ast.Attribute) and isinstance(base.value, ast.Name) and base.value.id == "self":
+                                        registry_state.append(f"{fn.name}:{base.attr}")
         for node in ast.walk(tree):
             if isinstance(node, ast.ClassDef):
                 for st in node.body:
@@ -114,6 +146,13 @@ def sharedMutableClassAttrs : List String := {llist(shared_mutable)}
 
 /-- module-level mutable objects that a function body of the same module mutates -/
 def moduleLevelWrites : List String := {llist(module_written)}
+
+/-- module- or class-level names bound to a one-shot iterator (`map`, `filter`, `zip`, a generator
+expression, …): exhausted by its first use, so later files would see something else -/
+def moduleLevelIterators : List String := {llist(uniq(one_shot))}
+
+/-- attributes of the (process-long) `Registry` instance written by a method other than `__init__` -/
+def registryInstanceWrites : List String := {llist(uniq(registry_state))}
 
 /-- `global` declarations inside functions -/
 def globalDecls : List String := {llist(uniq(global_decls))}
